@@ -5,7 +5,8 @@ import vf
 IMPORTS = """From Coq Require Import ZArith List Bool.
 From Opcua Require Import Model.Layout Gen.ArithFromGo Gen.PolicyParams Model.UacpHandshake Props.C38.
 Import ListNotations. Open Scope Z_scope.
-Definition wires (o : option (list Z)) : list Z := match o with Some b => map (sec_len ModeNone sym_None) b | None => [] end.
+Definition wires (m : sec_mode) (p : sym_params) (o : option (list Z)) : list Z :=
+  match o with Some b => map (sec_len m p) b | None => [] end.
 Definition sent (o : option (list Z)) : bool := match o with Some _ => true | None => false end.
 (* when the receiver rejects a message it may close before the sender has written every chunk: then the chunks
    seen on the wire are a prefix of what the sender set out to write *)
@@ -16,21 +17,21 @@ Definition same_wire (complete : bool) (model observed : list Z) : bool :=
 
 # configuration, message sizes | observed: negotiated?, hello, ack, client c.ack, server c.ack, client peer limits, server peer limits,
 # request chunk sizes on the wire, request arrived, response chunk sizes on the wire, response arrived
-CTYPE = "(limits * limits * Z * Z) * (bool * limits * limits * limits * limits * (Z * Z) * (Z * Z)) * (list Z * bool * list Z * bool)"
+CTYPE = "(sec_mode * sym_params) * (limits * limits * Z * Z) * (bool * limits * limits * limits * limits * (Z * Z) * (Z * Z)) * (list Z * bool * list Z * bool)"
 
-AGREE = """  let '((cl, sv, lreq, lresp), (ok, ohel, oack, ocli, osrv, opc, ops), (c2s, reqarr, s2c, resparr)) := c in
+AGREE = """  let '((m, p), (cl, sv, lreq, lresp), (ok, ohel, oack, ocli, osrv, opc, ops), (c2s, reqarr, s2c, resparr)) := c in
   match negotiate cl sv with
   | None => negb ok
   | Some (hel, ack, cli, srv) =>
       ok && lim_eqb hel ohel && lim_eqb ack oack && lim_eqb (s_lim cli) ocli && lim_eqb (s_lim srv) osrv &&
       (s_peer_maxmsg cli =? fst opc) && (s_peer_maxchunks cli =? snd opc) &&
       (s_peer_maxmsg srv =? fst ops) && (s_peer_maxchunks srv =? snd ops) &&
-      let req := send cli (go_max (l_send (s_lim cli)) sym_None) lreq in
-      let arrived := sent req && delivered srv (wires req) lreq in
-      let resp := if arrived then send srv (go_max (l_send (s_lim srv)) sym_None) lresp else None in
-      let rarrived := sent resp && delivered cli (wires resp) lresp in
-      same_wire arrived (wires req) c2s && Bool.eqb arrived reqarr &&
-      same_wire rarrived (wires resp) s2c && Bool.eqb rarrived resparr
+      let req := send cli (go_max (l_send (s_lim cli)) p) lreq in
+      let arrived := sent req && delivered srv (wires m p req) lreq in
+      let resp := if arrived then send srv (go_max (l_send (s_lim srv)) p) lresp else None in
+      let rarrived := sent resp && delivered cli (wires m p resp) lresp in
+      same_wire arrived (wires m p req) c2s && Bool.eqb arrived reqarr &&
+      same_wire rarrived (wires m p resp) s2c && Bool.eqb rarrived resparr
   end"""
 
 
@@ -51,8 +52,10 @@ def coq_case(o):
     ok = bool(o.get("client_conn")) and bool(o.get("server_conn")) and not o.get("dial_err")
     cp = o.get("client_peer") or {"maxmsg": 0, "maxchunks": 0}
     sp = o.get("server_peer") or {"maxmsg": 0, "maxchunks": 0}
-    return "((%s, %s, %d, %d), (%s, %s, %s, %s, %s, (%d, %d), (%d, %d)), (%s, %s, %s, %s))" % (
-        lim(o["client"]), lim(o["server"]), o["req_msg"], o["resp_msg"],
+    mode = o.get("mode") or 1
+    mp = {1: "(ModeNone, sym_None)", 2: "(ModeSign, sym_Basic256Sha256)", 3: "(ModeSignEnc, sym_Basic256Sha256)"}[mode]
+    return "(%s, (%s, %s, %d, %d), (%s, %s, %s, %s, %s, (%d, %d), (%d, %d)), (%s, %s, %s, %s))" % (
+        mp, lim(o["client"]), lim(o["server"]), o["req_msg"], o["resp_msg"],
         cb(ok), lim(o.get("hello")), lim(o.get("ack")), lim(o.get("client_conn")), lim(o.get("server_conn")),
         cp["maxmsg"], cp["maxchunks"], sp["maxmsg"], sp["maxchunks"],
         zl(o["c2s"]), cb(o["req_arrived"]), zl(o["s2c"]), cb(o["resp_arrived"]))
@@ -170,12 +173,17 @@ def run(ctx):
     ctx.coverage.update({
         "evaluations": len(obs), "distinct_nontrivial": len(distinct),
         "rule": "real gopcua client (uacp.Dialer{ClientACK}+uasc.NewSecureChannel) and scripted server (uacp.Listen(ack)+uasc.NewServerSecureChannel) "
-                "over a frame-recording proxy, one ReadRequest/ReadResponse exchange per connection with message sizes placed around "
+                "over a frame-recording proxy, one ReadRequest/ReadResponse exchange per connection, modes None / Sign / SignAndEncrypt, half of the cases a chunk grid (body = k*maxbody + r, k in 1..6, r in -2..k+1, one direction at a time), the others with message sizes placed around "
                 "k*(chunk body size), MaxMessageSize and MaxChunkCount of both sides; configurations: symmetric default, client smaller, server smaller, "
                 "fully asymmetric (8192..2^20), server/client message limits, zero = unlimited, mixed, buffers below the minimum; "
                 "distinct = distinct (client cfg, server cfg, request size, response size) other than default/default",
         "samples": obs[:2] + obs[-2:],
         "classes": classes,
+        "modes": {m: sum(1 for o in obs if (o.get("mode") or 1) == m) for m in (1, 2, 3)},
+        "chunk_grid_cases": sum(1 for o in obs if str(o.get("class", "")).startswith("chunk-grid")),
+        "largest_chunk_vs_announced": {
+            "c2s_max_ratio": max([max(o["c2s"]) / o["ack"]["recv"] for o in obs if o["c2s"] and o.get("ack")] or [0]),
+            "s2c_max_ratio": max([max(o["s2c"]) / o["hello"]["recv"] for o in obs if o["s2c"] and o.get("hello")] or [0])},
         "calibration": calib,
         "distinct_configurations": len({cfgkey(o) for o in obs}),
         "requests_refused_by_sender": sum(1 for o in obs if str(o.get("client_err", "")).startswith("refused")),
@@ -188,7 +196,7 @@ def run(ctx):
         "model_impl_mismatches": len(mism),
     })
     ctx.assumptions += [
-        "wire sizes are compared for SecurityPolicy None (chunk = 24 + body); for the other policies the chunk size bound is theorem C38_fits (tied by the C38 sweep)",
+        "wire sizes are compared for None/None and for Basic256Sha256 in Sign and SignAndEncrypt (Model.Layout.secured_len); for the other policies the chunk size bound is theorem C38_fits (tied by the C38 sweep)",
         "a client that announces MaxMessageSize/MaxChunkCount = 0 applies the server's values (or the defaults) to what it receives (C06_remark_client_without_limits); outside the three clauses of the property",
     ]
 
